@@ -26,6 +26,7 @@ type verifC14Coordinator struct {
 	verifMockCoordinator
 	join     joinGroupResponse
 	parts    []Partition
+	missing  map[string]bool
 	lastSync *syncGroupRequestV0
 	answer   []byte
 }
@@ -34,18 +35,26 @@ func (c *verifC14Coordinator) joinGroup(joinGroupRequest) (joinGroupResponse, er
 	return c.join, nil
 }
 
+// readPartitions answers like a broker's Metadata response for the requested topics, in request order, read by the
+// real readTopicMetadatav1 of a connection without a topic (as the group coordinator connection is): a topic the
+// cluster does not have carries error UnknownTopicOrPartition.
 func (c *verifC14Coordinator) readPartitions(topics ...string) ([]Partition, error) {
-	want := map[string]bool{}
+	brokers := map[int32]Broker{}
+	var metas []topicMetadataV1
 	for _, t := range topics {
-		want[t] = true
-	}
-	var out []Partition
-	for _, p := range c.parts {
-		if want[p.Topic] {
-			out = append(out, p)
+		meta := topicMetadataV1{TopicName: t}
+		if c.missing[t] {
+			meta.TopicErrorCode = int16(UnknownTopicOrPartition)
 		}
+		for _, p := range c.parts {
+			if p.Topic == t && !c.missing[t] {
+				brokers[int32(p.Leader.ID)] = p.Leader
+				meta.Partitions = append(meta.Partitions, partitionMetadataV1{PartitionID: int32(p.ID), Leader: int32(p.Leader.ID)})
+			}
+		}
+		metas = append(metas, meta)
 	}
-	return out, nil
+	return (&Conn{}).readTopicMetadatav1(brokers, metas)
 }
 
 func (c *verifC14Coordinator) syncGroup(req syncGroupRequestV0) (syncGroupResponseV0, error) {
@@ -91,6 +100,11 @@ func VerifC14LeaderRound(protocol string, members []VerifC14Member, parts []Part
 // VerifC14Round is VerifC14LeaderRound followed, for every member, by the rest of nextGeneration's data path:
 // fetchOffsets (nothing committed) and makeAssignments; `final` is Generation.Assignments per member as partition ids.
 func VerifC14Round(protocol string, members []VerifC14Member, parts []Partition) (received map[string]map[string][]int32, final map[string]map[string][]int, computed GroupMemberAssignments, err error) {
+	return VerifC14RoundMissing(protocol, members, parts, nil)
+}
+
+// VerifC14RoundMissing is VerifC14Round on a cluster that does not (yet) have the topics `missing`.
+func VerifC14RoundMissing(protocol string, members []VerifC14Member, parts []Partition, missing []string) (received map[string]map[string][]int32, final map[string]map[string][]int, computed GroupMemberAssignments, err error) {
 	if len(members) == 0 {
 		return nil, nil, nil, fmt.Errorf("no members")
 	}
@@ -108,7 +122,10 @@ func VerifC14Round(protocol string, members []VerifC14Member, parts []Partition)
 		}
 		join.Members = append(join.Members, joinGroupResponseMember{MemberID: m.ID, MemberMetadata: req.GroupProtocols[0].ProtocolMetadata})
 	}
-	leader := &verifC14Coordinator{join: join, parts: parts}
+	leader := &verifC14Coordinator{join: join, parts: parts, missing: map[string]bool{}}
+	for _, t := range missing {
+		leader.missing[t] = true
+	}
 	memberID, generationID, computed, err := cgs[0].joinGroup(leader, "")
 	if err != nil {
 		return nil, nil, nil, err
